@@ -35,6 +35,25 @@ RULE_SEARCH = (
     "by the model (M) and judged by the property (S) from the declared initial state. non-trivial as above")
 
 
+RULE_APP = (
+    "end to end through the application: a REAL CompassApp built offline from a generated TOML configuration + network files "
+    "([traversal] distance model or speed table with its speed / distance / time units, [state] section, [access] turn delays "
+    "with a heading CSV and a delay table in any time unit, [cost] weights and raw / factor vehicle rates, a* (weight factor "
+    "<= 1) or dijkstra), CompassApp::run on one vertex-oriented JSON query (ids or coordinates through the vertex map-matching "
+    "plugin; optional state_features / weights / weight_factor of the query) with the traversal output plugin in `json` "
+    "route format. Families first: a zig-zag network under every distance unit, feature unit != model unit with a non-zero "
+    "initial value, 18 speed/distance/time unit combinations, every delay unit, query overrides, factor rates, an extra "
+    "configured feature, single edge, parallel edges, map-matched, unreachable; then random networks (3-40 vertices on a "
+    "1/8-degree grid, edge length >= 1.02 x great-circle distance so that the A* estimate is consistent: no re-opening). "
+    "I = every record of route.path (edge_id, access_cost, traversal_cost, result_state), EdgeTraversal::total_cost of each, "
+    "route.traversal_summary and route.cost as exact float bits. M = Model/Traversal.v in binary64 re-walks the returned path "
+    "from the declared initial state (bit for bit, summary and cost from ITS last state). S = the exact-rational judge "
+    "TR.judge on the application's numbers (state = closed-form sums, costs = rated weighted increments, summary = state "
+    "after the last edge) + route.cost = vehicle rate of the summary values and their sum in feature order. A query without "
+    "a route: an error is expected exactly when a plain search cannot reach the destination. Non-trivial = judged route of "
+    ">= 2 edges with a unit conversion or a charged turn delay")
+
+
 def classify(case, i, m, s):
     return None
 
@@ -50,7 +69,10 @@ def run(chk):
         "judge coq/Model/TraversalRun.v: per-term rounding to a 2^-128 grid, bands 1e-9 (state), 1e-8 + 1e-13*sensitivity*|state| "
         "(costs), 0.5 % (exact SI factors)",
         "reading of the model in exact rationals: rounding, overflow, NaN are outside the theorems (exercised bit-exactly by the stream)",
-        "Rust harness harness/src/bin/c03.rs and this driver"]
+        "Rust harness harness/src/bin/c03.rs and this driver",
+        "stream app_sums: harness/src/bin/e2e.rs (configuration / network writers, extraction of the records from the JSON "
+        "response; a speed_table section without distance_unit inherits `kilometers` from config.default.toml), "
+        "coq/Model/E2ERun.v (calls TR.judge / TR.run, adds the route.cost comparison)"]
     chk.assumptions = [
         "a route is an edge sequence traversed edge after edge from the declared initial state (the search-tree branch invariant "
         "`chain`; property C02 proves it for Dijkstra and consistent A*, K_reopen is the known exception)",
@@ -72,7 +94,8 @@ def run(chk):
         if not r.get("ok", False):
             vf.log("translator %s: %s (owned by another check; its previous output is used)" % (name, r.get("msg")))
 
-    chk.proofs(extra_targets=["Model/TraversalRun.vo"])
+    # Props/Links.v: the composition theorems (C01/C02/C05/C10/C13 -> C03) are re-checked with this property
+    chk.proofs(extra_targets=["Model/TraversalRun.vo", "Model/E2ERun.vo"], extra_props=["Props/Links.v"])
     binp = vf.build_harness("c03")
     quick = chk.tier == "quick"
 
@@ -82,7 +105,7 @@ def run(chk):
             only = json.load(open(chk.replay)).get("stream")
         except Exception:  # noqa
             only = None
-        if only not in ("walk", "search"):
+        if only not in ("walk", "search", "app_sums"):
             only = "walk"
 
     if only in (None, "walk"):
@@ -93,6 +116,12 @@ def run(chk):
         r = vf.run_stream(binp, "search", 60 if quick else 1500, chk.seed, os.path.join(chk.outdir, "search"), replay=chk.replay)
         chk.add_stream(r, RULE_SEARCH)
         vf.compare(chk, r, classify=classify, binpath=binp)
+    if only in (None, "app_sums"):
+        # end to end: the same judge and model on what CompassApp::run returns (harness/src/bin/e2e.rs)
+        binp_app = vf.build_harness("e2e")
+        r = vf.run_stream(binp_app, "app_sums", 150 if quick else 1500, chk.seed, os.path.join(chk.outdir, "app_sums"), replay=chk.replay)
+        chk.add_stream(r, RULE_APP)
+        vf.compare(chk, r, classify=classify, binpath=binp_app)
 
     if chk.broken_obligation:
         chk.violation("broken-obligation", "proofs", {"obligations": chk.broken_obligation}, "does not check", "Qed",
